@@ -161,6 +161,21 @@ PowBaseCase(i, j, k) ==
   IN [op |-> "convert", base |-> B, mode |-> Modes[((i + j + k + Seed) % 6) + 1],
       x |-> Float((i + j) % 2 = 0, SigDigits0(v, B), B, e, k % 2), fn |-> fn, tbase |-> T, tprec |-> tp]
 
+\* ------------------------------------------------------------------ odd base: a dropped part just below one half
+\* In an odd base B the digit string hhh...h with h = (B - 1) / 2 is (B^k - 1) / 2 / B^k: below one half by 1 / (2 B^k), never a
+\* tie.  i: kept digits (1..3), j: dropped digits (1..14), k: mode (6) x sign (2) x operation (with_precision | print {:.N})
+OddHalfCase(i, j, k) ==
+  LET B == 3
+      h == (B - 1) \div 2
+      kept == [t \in 1..i |-> IF t = 1 THEN 2 ELSE (t + j) % B]
+      ds == kept \o [t \in 1..j |-> h]
+      md == Modes[((k - 1) % 6) + 1]
+      ng == ((k - 1) \div 6) % 2 = 1
+      asprint == ((k - 1) \div 12) % 2 = 1
+  IN IF asprint
+     THEN [op |-> "print", base |-> B, mode |-> md, x |-> Float(ng, ds, B, -(j + i - 1), 0), kind |-> "display", fprec |-> i - 1]
+     ELSE [op |-> "convert", base |-> B, mode |-> md, x |-> Float(ng, ds, B, -j, 0), fn |-> "with_precision", tbase |-> B, tprec |-> i]
+
 \* ------------------------------------------------------------------ with_precision by one or two digits
 \* significands just above a power of the base (1000...01), all-max (999...9) and dense ones, of 2..24 digits, shrunk by
 \* one or two digits: a digit-count ESTIMATE that is off by one decides wrongly exactly here
@@ -192,12 +207,12 @@ FromFCase(i, j, k) ==
                    ELSE <<Lcg(j, Seed + 5) * 16 % 65536, Lcg(j + 1, Seed + 5) * 17 % 65536>>]
 
 \* ------------------------------------------------------------------ enumeration
-Classes == {"grammar", "roundtrip", "precprint", "convert", "fromf", "wprec", "powbase"}
-NI(c) == CASE c = "grammar" -> 6 [] c = "roundtrip" -> 6 [] c = "precprint" -> IF Thorough THEN 6 ELSE 3 [] c = "convert" -> 36 [] c = "fromf" -> 2 [] c = "wprec" -> 6 [] c = "powbase" -> 5
+Classes == {"grammar", "roundtrip", "precprint", "convert", "fromf", "wprec", "powbase", "oddhalf"}
+NI(c) == CASE c = "grammar" -> 6 [] c = "roundtrip" -> 6 [] c = "precprint" -> IF Thorough THEN 6 ELSE 3 [] c = "convert" -> 36 [] c = "fromf" -> 2 [] c = "wprec" -> 6 [] c = "powbase" -> 5 [] c = "oddhalf" -> 3
 NJ(c) == CASE c = "grammar" -> 42 [] c = "roundtrip" -> 10 * Len(RTExps) [] c = "precprint" -> 63
-           [] c = "convert" -> 5 * Len(CExps) [] c = "fromf" -> 40 [] c = "wprec" -> 23 [] c = "powbase" -> 15
+           [] c = "convert" -> 5 * Len(CExps) [] c = "fromf" -> 40 [] c = "wprec" -> 23 [] c = "powbase" -> 15 [] c = "oddhalf" -> 14
 NK(c) == CASE c = "grammar" -> 153 [] c = "roundtrip" -> IF Thorough THEN 6 ELSE 3 [] c = "precprint" -> 252
-           [] c = "convert" -> 25 [] c = "fromf" -> 1 [] c = "wprec" -> 6 [] c = "powbase" -> 30
+           [] c = "convert" -> 25 [] c = "fromf" -> 1 [] c = "wprec" -> 6 [] c = "powbase" -> 30 [] c = "oddhalf" -> 24
 
 VARIABLES phase, cls, i, j, k
 vars == <<phase, cls, i, j, k>>
@@ -221,5 +236,6 @@ Case ==
     [] cls = "fromf" -> FromFCase(i, j, k)
     [] cls = "wprec" -> WPrecCase(i, j, k)
     [] cls = "powbase" -> PowBaseCase(i, j, k)
+    [] cls = "oddhalf" -> OddHalfCase(i, j, k)
 Emit == phase = "done" => PrintT(<<"GEN", ToJson(Case)>>)
 =============================================================================
